@@ -791,7 +791,8 @@ def model_check(ctx, ext, known, quick):
                                  "drop": False, "reach": True}),
             # a monitor reading while two cleaners race (one of them is refused)
             ("mon_cleaners2", {"monitors": ["M1"], "cleaners": ["C1", "C2"], "levels": {"M1": ["pm", "cal"]},
-                               "crash": ["running"], "ccrash": False, "after": True, "drop": False}),
+                               "crash": ["running"], "ccrash": False, "after": True, "drop": False,
+                               "simulate": "num=4000"}),      # exhaustive: 18 M states
             # 3 and 4 concurrent cleaners: random behaviours (TLC -simulate), the exhaustive instances are too large
             ("cleaners3", {"cleaners": ["C1", "C2", "C3"], "crash": ["running"], "ccrash": True, "after": True,
                            "drop": False, "simulate": "num=3000"}),
